@@ -53,7 +53,7 @@ def _nonlinear_profile(job):
     asym = fit.asymmetric_parameter_errors
     fmin = float(fit.cost_function_value)
     if asym is not None:
-        pv = np.asarray(fit.parameter_values, dtype=float)
+        pv = np.array(fit.parameter_values, dtype=float)
         for j, name in enumerate(("A", "k")):
             for side in (0, 1):
                 g = mk()
